@@ -428,8 +428,10 @@ class Interp:
 
     def place_name(self, frame, place):
         from mirlib import pp_place
+        import re
         s = pp_place(frame.body, place)
-        return s.replace('«', '').replace('»', '')
+        s = re.sub(r'_\d+«([^»]*)»', r'\1', s)
+        return s
 
     # ------------------------------------------------------------------ operands / rvalues
     def eval_const(self, w, frame, o):
@@ -1021,9 +1023,12 @@ class Interp:
         self.write(w, loc, v)
         if loc.root[0] != 'L':
             # a store into caller-visible memory
-            self.rec(frame, site[1], 'event', site, ('store', loc, v, self.key_desc(w)))
+            self.rec(frame, site[1], 'event', site, ('store', loc, v, self.key_desc(w), w.fork()))
             if loc.path and loc.path[-1][0] == 'i':
                 w.written = w.written | {loc.root}
+                wh = self.cfg.get('write_hook')
+                if wh:
+                    wh(self, w, frame, site, Loc(loc.root, loc.path[:-1]), loc.path[-1][1], Lin.c(1), ('value', v))
 
     # ------------------------------------------------------------------ terminators
     def exec_term(self, w, frame, bb, term):
@@ -1063,6 +1068,7 @@ class Interp:
                 self.fail(w, frame, site, 'assert:' + msg['kind'], desc)
             return [(term['target'], w)]
         if k == 'drop':
+            self.stats['drops_executed'] = self.stats.get('drops_executed', 0) + 1
             cur = self.resolve_place(w, frame, term['place'])
             if cur[0] == 'loc' and cur[1].root in w.mem:
                 try:
@@ -1333,9 +1339,14 @@ class Interp:
             return ('b', v[1][1]) if v[1][0] == 'c' else None
         if t == 'enum':
             if len(v[1]) == 1:
-                return ('v', v[1][0][0])
+                var, fs = v[1][0]
+                if depth < 3 and fs:
+                    sub = tuple(self.tag(x, depth + 1) for x in fs)
+                    if any(x is not None for x in sub):
+                        return ('v', var, sub)
+                return ('v', var)
             return None
-        if t == 'agg' and depth < 1:
+        if t == 'agg' and depth < 3:
             ts = tuple(self.tag(x, depth + 1) for x in v[1])
             return ts if any(x is not None for x in ts) else None
         return None
@@ -1343,6 +1354,11 @@ class Interp:
     def key_of(self, w, frame):
         items = []
         for root, v in w.mem.items():
+            if root[0] == 'G':
+                t = self.tag(v)
+                if t is not None:
+                    items.append((root, t))
+                continue
             if root[0] != 'L':
                 continue
             t = self.tag(v)
@@ -1350,7 +1366,7 @@ class Interp:
                 t = ('i', v[1].const)
             if t is not None:
                 items.append((root, t))
-        items.sort()
+        items.sort(key=repr)
         return tuple(items)
 
     def key_desc(self, w):
@@ -1380,7 +1396,7 @@ class Interp:
         if t[0] == 'v':
             ty = fr.body.local_ty(local)
             if ty['k'] == 'adt':
-                return self.facts.variant_name(ty['name'], t[1])
+                return self.facts.variant_name(ty['name'], t[1]) + (str(t[2]) if len(t) > 2 else '')
             return str(t[1])
         if t[0] in ('b', 'i'):
             return str(t[1])
@@ -1389,7 +1405,7 @@ class Interp:
         for i, x in enumerate(t):
             if x is None:
                 parts.append('_')
-            elif x[0] == 'v' and ty['k'] == 'tuple' and ty['of'][i]['k'] == 'adt':
+            elif x and x[0] == 'v' and ty['k'] == 'tuple' and i < len(ty['of']) and ty['of'][i]['k'] == 'adt':
                 parts.append(self.facts.variant_name(ty['of'][i]['name'], x[1]))
             else:
                 parts.append(str(x[1]) if len(x) > 1 else str(x))
